@@ -77,6 +77,17 @@ pub fn memory_edit_profile() -> Profile {
     p
 }
 
+/// the same edits on a module that was parsed with `enable_multi_memory == false`: one memory in the
+/// input, more after the edits
+pub fn memory_flag_off_profile() -> Profile {
+    let mut p = memory_edit_profile();
+    p.name = "memory-edit-flag-off";
+    p.max_mems = 1;
+    p.multi_memory = false;
+    p.add_mem_anyway = true;
+    p
+}
+
 pub fn delete_profile(dangling: bool) -> Profile {
     let mut p = Profile::base(if dangling { "delete-dangling" } else { "delete-clean" });
     p.max_mems = 2;
@@ -446,7 +457,7 @@ pub fn check_def(id: &str) -> Option<CheckDef> {
         },
         "C06" => d("C06", vec![func_edit_profile()]),
         "C07" => d("C07", vec![global_edit_profile()]),
-        "C08" => d("C08", vec![memory_edit_profile()]),
+        "C08" => d("C08", vec![memory_edit_profile(), memory_edit_profile(), memory_flag_off_profile()]),
         "C09" => d("C09", vec![delete_profile(false), delete_profile(true)]),
         "C10" => d("C10", vec![replace_profile()]),
         "C11" => d("C11", vec![convert_profile()]),
@@ -531,9 +542,12 @@ fn owns(id: &str, m: &Mismatch) -> bool {
         "C18" => k == "removed_region_probe" && s == "block_entry",
         "C19" => k == "removed_region_probe" && s == "block_exit",
         "C20" => k == "removed_region_probe" && s == "semantic_after",
-        "C15" | "C21" => k == "body_sequence" || (k == "removed_region_probe" && id == "C21") || (k == "unexpected_panic" && (s.starts_with("op:inject") || s.starts_with("encode"))) || k == "invalid_output",
+        // C21: "all other instructions and their instrumentation are unaffected" - a probe outside the
+        // replaced construct that is missing from the output is a C21 matter as well
+        "C15" | "C21" => k == "body_sequence" || (id == "C21" && matches!(k, "removed_region_probe" | "probe_missing")) || (k == "unexpected_panic" && (s.starts_with("op:inject") || s.starts_with("encode"))) || k == "invalid_output",
         "C22" => matches!(k, "probe_missing" | "bug_log_line"),
-        "C28" => k == "custom_section" || (k == "unexpected_panic" && s.starts_with("op:custom")),
+        // (the ID `add` returns is the handle later modifications go through)
+        "C28" => k == "custom_section" || (k == "returned_id" && s == "custom_add") || (k == "unexpected_panic" && s.starts_with("op:custom")),
         "C29" => matches!(k, "name_migrated" | "name_lost"),
         "C30" => {
             (k == "entity_missing" && s.starts_with("export") && s.ends_with("(added)"))
